@@ -118,13 +118,22 @@ Section NpAssign.
     end.
   Definition bidx (vs js : list Z) : list Z := rev (bidx_r (rev vs) (rev js)).
 
+  (* a key without slices addresses ONE element: the value must then be 0-d (NumPy >= 2 refuses
+     to convert an array with ndim > 0 to a scalar: "setting an array element with a sequence");
+     otherwise the value is broadcast against the selection *)
+  Definition value_fits (vs ss : list Z) : bool :=
+    match ss with
+    | [] => match vs with [] => true | _ => false end
+    | _ => bcast_ok vs ss
+    end.
+
   (* ---------------------------------------------------------------- assignment *)
   Definition np_setitem_basic (sh : shape) (a : idx -> V) (es : list kentry) (v : arr)
     : option (idx -> V) :=
     match np_axes (np_pad es sh) sh with
     | None => None
     | Some axs =>
-      if bcast_ok (a_shape v) (selshape axs)
+      if value_fits (a_shape v) (selshape axs)
       then Some (fun ix => match locate axs ix with
                            | Some js => a_get v (bidx (a_shape v) js)
                            | None => a ix
